@@ -72,6 +72,16 @@ class R:
         else:
             self.notes["violations_truncated"] = True
 
+    def full(self):
+        """True once the task holds as many violations as it may record: explorers stop
+        early then (the verdict is already decided; the run is marked non-exhaustive)."""
+        if len(self.viols) >= MAX_VIOL_PER_TASK:
+            if self.exhaustive:
+                self.exhaustive = False
+                self.caps.append("task stopped after %d recorded violations" % MAX_VIOL_PER_TASK)
+            return True
+        return False
+
     def merge(self, o):
         self.ev += o.ev
         self.dk |= o.dk
@@ -139,7 +149,28 @@ REARM = 6.0
 MAX_TIMEOUTS = 5
 
 
+def _in_impl(frame):
+    """True when the interrupted call stack is inside the code under test (a frame whose
+    source file is under /repo): only then can CaseTimeout be attributed to an
+    implementation call and be caught by the explorer as that call's outcome."""
+    src = os.path.join(os.path.realpath(REPO), "py_ecc") + os.sep
+    f = frame
+    while f is not None:
+        fn = f.f_code.co_filename
+        if fn.startswith(src) or os.path.realpath(fn).startswith(src):
+            return True
+        f = f.f_back
+    return False
+
+
 def _on_alarm(signum, frame):
+    if not _in_impl(frame):
+        # interrupted harness / model code: try again shortly (bounded), never raise here
+        _WD["miss"] = _WD.get("miss", 0) + 1
+        if _WD["miss"] > 20000:
+            raise TaskAbort()
+        signal.setitimer(signal.ITIMER_REAL, 0.01)
+        return
     _WD["n"] += 1
     if _WD["n"] > MAX_TIMEOUTS:
         raise TaskAbort()
@@ -150,6 +181,7 @@ def _on_alarm(signum, frame):
 def _worker(job):
     modname, fname, args, env = job
     _WD["n"] = 0
+    _WD["miss"] = 0
     _WD["r"] = None
     try:
         mod = importlib.import_module(modname)
